@@ -65,7 +65,6 @@ CLAIM = dict(
 
 THEOREMS = ["routes_enum_documented", "traverse_exact", "tables_exact", "multisource_iff", "tables_total",
             "tables_spec", "rte_roundtrip", "route_word_bits", "load_exact", "load_alloc_failure",
-<<<<<<< HEAD
             "readback_exact", "load_then_readback", "clear_exact",
             # Props/C10Machine.lean: machine of several chips, end to end, retransmitted allocation
             "load_tables_exact", "load_tables_failure", "load_tables_ok_iff", "load_tables_spec", "trees_to_router",
@@ -73,10 +72,7 @@ THEOREMS = ["routes_enum_documented", "traverse_exact", "tables_exact", "multiso
             # Props/C10Cross.lean: C10 entries <-> C04 entries
             "toC04_matches", "toC04_lookup", "ofC04_lookup", "toC04_route_bits", "toC04_sources_bits", "toC04_ofC04",
             "ofC04_toC04", "treeTables_c04_lookup", "loaded_router_lookup", "loaded_router_lookup_c04"]
-=======
-            "readback_exact", "load_then_readback", "clear_exact"]
 THEOREMS += ['gen_inDir']   # translator tie: generated function bodies = model (Props/C10Gen.lean)
->>>>>>> gen-eq
 
 RULE = ("pure cases = forests of 1-6 nets on a 4x4 torus: random branching trees/chains with vertex leaves (core route, link "
         "route or None), key/mask drawn from a pool of 1-3 so nets share them, later nets re-using (copying) subtrees of "
